@@ -583,6 +583,23 @@ func c04Run(c Case) (Result, error) {
 			}
 		}
 	}
+	// wrong lengths that cancel over the list (47 + 49, 0 + 96, 40 + 56 next to a good one): the bytes are
+	// those of valid signatures cut elsewhere, so that every 48-byte window of the concatenation decodes
+	if len(sigs) >= 2 {
+		cat := append(append([]byte{}, sigs[0]...), sigs[1]...)
+		for _, cut := range []int{47, 49, 0, 96, 40, 1} {
+			l := []crypto.Signature{cat[:cut], cat[cut:]}
+			if sg, e := crypto.AggregateBLSSignatures(l); !crypto.IsInvalidSignatureError(e) || sg != nil {
+				fail(fmt.Sprintf("signatures of %d and %d bytes (two valid signatures cut at byte %d): (%x, %v), documented: invalid-signature error", cut, 96-cut, cut, sg, e))
+			}
+			l3 := []crypto.Signature{sigs[0], cat[:cut], cat[cut:]}
+			if cut != 48 {
+				if sg, e := crypto.AggregateBLSSignatures(l3); !crypto.IsInvalidSignatureError(e) || sg != nil {
+					fail(fmt.Sprintf("a valid signature followed by signatures of %d and %d bytes: (%x, %v), documented: invalid-signature error", cut, 96-cut, sg, e))
+				}
+			}
+		}
+	}
 	// arbitrary E1 points
 	var pts []crypto.Signature
 	var ptsHex []string
